@@ -127,6 +127,46 @@ NOTES = {
                "a typed query using a parameter name through an operator, then an untyped lambda using that name as a free name, same process"),
     "C19_m3": ("a shortcut name called in another arity or with a keyword is returned without visiting its arguments",
                "shortcut calls inside the arguments of a non-matching shortcut-named call: Max(Sum(a), Sum(b))"),
+    "C01_m4": ("dataclass sugar takes parameter names from dataclasses.fields instead of inspect.signature",
+               "a dataclass whose field list differs from its __init__ parameters (init=False field before another, InitVar, early kw_only) called positionally"),
+    "C14_m4": ("visit_Attribute skips the dictionary-literal lookup when the attribute is also a method of dict (hasattr(dict, attr))",
+               "a packaged field named values/items/keys/get/copy/... read back by attribute"),
+    "C02_m4": ("an inline-called lambda that cannot be bound is returned unvisited (return call_node instead of generic_visit)",
+               "an unbindable called lambda (default parameter, arity mismatch) inside a term where a substitution is in flight"),
+    "C18_m4": ("the Dict branch of visit_Subscript accepts any constant selector; visit_Subscript_Dict asserts str/int",
+               "a dictionary literal indexed by a constant that is neither int, bool nor str (None, float, bytes)"),
+    "C03_m4": ("the same-line scan for further lambdas also stops at a `;` token",
+               "two statements on one physical line separated by `;`, the target lambda in the second"),
+    "C10_m4": ("tuple-literal index: the range comparison runs before the isinstance(int) test",
+               "a tuple literal subscripted by a str/bytes/complex constant: TypeError instead of ValueError"),
+    "C04_m4": ("global_getclosurevars adds only the globals named in the co_names of directly nested code objects",
+               "a module global used only inside a lambda nested >= 2 levels below the passed lambda"),
+    "C09_m4": ("process_method_callbacks is given the class that defines the method instead of the class it is called on",
+               "a class-level callback on a subclass and a call of a method inherited from an undecorated base"),
+    "C05_m4": ("a called lambda that is not inlined is returned unvisited (return node)",
+               "an inlined helper that calls another helper through a default or keyword argument, parameter names differing from the query's"),
+    "C16_m4": ("QMetaData stores a new value only if its str() differs from the visible one",
+               "a key re-set to a different value with the same str(): 358031 -> '358031', 'True' -> True"),
+    "C06_m4": ("convert_call_to_dict builds keys in declaration order and values in call order",
+               ">= 2 keyword arguments written in another order than the fields"),
+    "C19_m4": ("a shortcut name in another arity or with keywords is returned without visiting its children (as C19_m3)",
+               "real shortcut calls inside Max(len(a), len(b)), Min(Sum(a), Sum(b), 0), ..."),
+    "C07_m4": ("default literals are memoised with lru_cache: True and 1.0 (False/0.0, -0.0/0.0) collide",
+               "a bool default and an equal-valued float default filled in within one process"),
+    "C12_m4": ("_get_executor returns self.execute_result_async when the stream object has one: clones are shallow copies of the dataset",
+               "value() directly on a stream derived from a dataset; observing which OBJECT ran the query"),
+    "C08_m4": ("the return type is recorded before the callbacks run and the callback result replaces r_node",
+               "a callback that returns a new call node, the call's result used as a sub-expression"),
+    "C20_m4": ("the dump is NFKC-normalised before hashing",
+               "two string constants that are NFKC-equivalent (pt² / pt2)"),
+    "C11_m4": ("the cleaner's generic_visit writes the fresh list copies onto the original node; the clone keeps the shared lists",
+               "an empty MetaData({}) upstream, a QMetaData copy sharing the list object, value() on either branch"),
+    "C17_m4": ("a visit_Lambda that only visits the body",
+               "a lambda whose parameter default contains a method-form operator call"),
+    "C13_m4": ("check_ast runs on the user lambda before type following fills in declared defaults",
+               "a typed method whose omitted parameter has a tuple/list/dict default"),
+    "C15_m4": ("an empty wrapper returns generic_visit(node.args[0]): the source itself is not visited",
+               "an empty wrapper directly over another empty wrapper"),
     "C20_m2": ("the dump is encoded with errors='replace': non-ASCII characters collapse to '?'",
                "two queries differing in one non-ASCII character at the same position"),
 }
@@ -136,6 +176,11 @@ REBASED = ("patch re-created by hand on /repo HEAD (the same change) after later
 
 # name -> one sentence on how the evaluation of this change went over time (only where there is something to say)
 HISTORY = {
+    "C14_m4": MISSED + "dictionary keys named like methods of dict in the chain generator (and a record semantics for dictionary literals in the reference evaluator, which previously skipped attribute access on them)",
+    "C17_m4": MISSED + "lambdas with parameter defaults that contain operator calls in the C17 generators",
+    "C12_m4": MISSED + "recording which dataset OBJECT ran the query (a shallow copy of the dataset is not the dataset at the root)",
+    "C08_m4": MISSED + "callbacks that return a new call node whose result is used as a sub-expression",
+    "C01_m4": MISSED + "record classes whose field list differs from the constructor signature in the program generator",
     "C14_m3": MISSED + "packaging behind First(Select(seq, j: package)) in the chain generator, so that projections reach First() only through substitution (and the result-shape stripping looks through First(Select(..)))",
     "C02_m3": MISSED + "the hygiene family of C02: pending definitions at every stack depth that mention a free name which an inner un-called lambda binds",
     "C18_m3": MISSED + "the shared-selector family of C18: one selector reaching several literal projections through a lambda parameter, boundary indices of both signs",
